@@ -1,7 +1,7 @@
 (* C17 - property theorems only.  Each is closed by [exact lemma]; statements are pinned.
    Inv, wf_seg, wf_op, apply_op, run_ops are defined in Proofs/TcbInv.v; unacceptable,
    reply_only, same_but_oneshot, entirely_outside, within_snd_window in Proofs/TcbC17.v. *)
-From Elvis Require Import Model.Base Model.U32 Model.Tcb Proofs.U32Facts Proofs.TcbEdges Proofs.TcbInv Proofs.TcbC17.
+From Elvis Require Import Model.Base Model.U32 Model.Tcb Model.TcpNet Proofs.U32Facts Proofs.TcbEdges Proofs.TcbInv Proofs.TcbC17.
 Local Open Scope Z_scope.
 
 (* ---- the invariant holds initially ... ---- *)
@@ -143,3 +143,12 @@ Theorem C17_ack_antipode_accepted :
   end.
 Proof. exact ack_antipode. Qed.
 Print Assumptions C17_ack_antipode_accepted.
+
+(* ---- the closed two-endpoint system of Model/TcpNet.v (opens, sends, reads,
+   closes, ticks, delivery / loss / duplication / reordering of the endpoints'
+   own segments) with forged well-formed segments injected at any point: no
+   step ever raises the panicked flag ---- *)
+Theorem C17_no_crash_sys : forall c b ls, wf_cfg c -> Forall wf_label ls ->
+  panicked (run c (init_sys b) ls) = false /\ SysInv (run c (init_sys b) ls).
+Proof. exact no_crash_sys. Qed.
+Print Assumptions C17_no_crash_sys.
